@@ -183,7 +183,7 @@ FAMILIES["C04"] = dict(
     rule="a case is a program text; non-trivial when the grammar specification does not abstain and the real parser built a tree (or rejected the text) for it; distinct by bytes",
     level_text=("The grammar is specified twice in TLA+: functionally (JSyntax!Parse: precedence climbing over the ten precedence rows, driven by the scanner specification exactly where a regular expression is allowed, plus the tree normalisation) "
                 "and declaratively (MC_C04!WellShaped/Yield: every infix node's left child binds at least as tightly, its right child strictly tighter except under :=, and the in-order yield is the token sequence). TLC checks that they agree and that the tree "
-                "does not depend on whitespace for every chain of 2..3 infix/postfix operators (thorough: also every chain of 4 binary operators over variables) over the complete operator set (18 binary tokens, [p], [], {k:v}, ^(k), (a), ?:, ?) in seven operand flavours (variables, names, literals, negated tight and spaced, operands ending in } and |); every chain is rendered tightly and with "
+                "does not depend on whitespace for every chain of 2..3 infix/postfix operators (thorough: also every chain of 4 binary operators over variables) over the complete operator set (18 binary tokens, [p], [], {k:v}, ^(k), (a), ?:, ?) in nine operand flavours (variables, names, literals, negated tight and spaced - a prefix minus takes exactly the operand that follows it -, operands ending in } and |, wildcard and descendant operands * ** a.** b.*); every chain is rendered tightly and with "
                 "generous whitespace, compiled by the real parser, and its exported tree compared with the specification's by trace validation (TraceParse); seeded generated programs of every family are validated the same way."),
     level_note=_SEM_NOTE + " Regular-expression literals and lambda signatures are outside JSyntax (the specification abstains; see C17/C12).",
 )
@@ -231,7 +231,7 @@ FAMILIES["C20"] = dict(
     level_text=("Registry visibility is the invariant JApi!Visibility (an expression sees exactly the package-level registrations made before it was compiled plus its own), proved by TLC for all histories of <= 4 API calls and shown to fail under the registry_alias deviation; "
                 "seeded histories of RegisterVars/RegisterExts (package- and Expr-level, valid and invalid names, same-named values on different expressions) interleaved with Compile and Eval are validated against JApi by TraceApi. Argument passing is the TLA+ relation JEval!Convert / ExtCall "
                 "(numbers to numeric kinds, strings to string or []byte but nothing else to string, anything to interface{}/reflect.Value, Optional* unset when omitted, variadic tail, the two handlers, error and ErrUndefined results): TLC enumerates every parameter list of length 0..2 over 16 Go parameter kinds, "
-                "with and without a variadic tail, x argument lists of length 0..2 (3) over 9 argument kinds incl. function and missing, plus handler and result-shape combinations; each case builds the Go function by reflection, which echoes what it received, and is validated by trace validation."),
+                "with and without a variadic tail, x argument lists of length 0..2 (3) over 9 argument kinds incl. function and missing, plus handler and result-shape combinations; each case builds the Go function by reflection, which echoes what it received, and is validated by trace validation. An argument error names the function (rule E3): 120 programs reach the extension through an alias or a lambda parameter first and then fail by another route (direct call, higher-order built-in, chain, partial application, block callee); the name must be the registered one."),
     level_note=_SEM_NOTE + " Out-of-range and fractional numeric conversions and JSON null arguments are left open by the statement (the specification abstains).",
 )
 
